@@ -376,6 +376,15 @@ impl Schema {
                 });
             }
         }
+        // the hand-written application-exception struct of the runtime (1: message, 2: type)
+        structs.push(StructDef {
+            name: "ApplicationException",
+            kind: Kind::Struct,
+            fields: vec![
+                crate::corpus_def::Field { id: 1, name: "message".into(), ty: Ty::String, req: Req::Default, ann: "", default: None },
+                crate::corpus_def::Field { id: 2, name: "type".into(), ty: Ty::I32, req: Req::Default, ann: "", default: None },
+            ],
+        });
         Schema { corpus, structs }
     }
 
